@@ -71,6 +71,15 @@ func (vc *VC) specialCall(st *State, fn *types.Func, recvExpr ast.Expr, call *as
 		return sc(r, SBool), true
 	case pkg == "time" && rt == "Duration" && name == "Nanoseconds":
 		return vc.eval(st, recvExpr), true
+	case pkg == "sync" && rt == "Pool":
+		vc.evalArgs(st, call)
+		if name == "Get" {
+			// A-POOL: a new object or one previously Put; contents arbitrary
+			r := vc.declare("pool.get", SRef)
+			vc.assumeAllocated(st, r)
+			return sc(r, SRef), true
+		}
+		return &TupleV{}, true
 	case pkg == "sync" && rt == "WaitGroup":
 		vc.evalArgs(st, call)
 		return &TupleV{}, true
@@ -110,32 +119,38 @@ func (vc *VC) atomicMethod(st *State, rt, name string, recvExpr ast.Expr, call *
 			return vc.loadPlace(st, p).(*Scalar).T
 		}
 		vc.loadPlace(st, p) // access hook
-		return vc.declare("atomic."+name, s)
+		v := vc.declare("atomic."+name, s)
+		vc.atomInv(st, p, v, s, false, call.Pos())
+		return v
+	}
+	write := func(v string) {
+		vc.atomInv(st, p, v, s, true, call.Pos())
+		vc.storePlace(st, p, sc(v, s))
 	}
 	switch name {
 	case "Load":
 		return sc(read(), s)
 	case "Store":
 		v := vc.evalScalar(st, call.Args[0])
-		vc.storePlace(st, p, sc(v.T, s))
+		write(v.T)
 		return &TupleV{}
 	case "Swap":
 		old := read()
 		v := vc.evalScalar(st, call.Args[0])
-		vc.storePlace(st, p, sc(v.T, s))
+		write(v.T)
 		return sc(old, s)
 	case "Add":
 		old := read()
 		v := vc.evalScalar(st, call.Args[0])
 		nv := vc.define("atomic.add", s, sx("bvadd", old, v.T))
-		vc.storePlace(st, p, sc(nv, s))
+		write(nv)
 		return sc(nv, s)
 	case "CompareAndSwap":
 		old := read()
 		o := vc.evalScalar(st, call.Args[0])
 		n := vc.evalScalar(st, call.Args[1])
 		okc := vc.define("cas", SBool, eq(old, o.T))
-		vc.storePlace(st, p, sc(ite(okc, n.T, old), s))
+		write(ite(okc, n.T, old))
 		return sc(okc, SBool)
 	}
 	panic(unsupported("atomic method %s", name))
@@ -317,4 +332,38 @@ func (vc *VC) mapAccessHook(st *State, m string, mt *types.Map, write bool) {
 		return
 	}
 	vc.guardCheckMap(st, m, mt, write)
+}
+
+// atomInv: an atomic field may carry an invariant on its values, declared as a pure function
+// atominv_<Owner>_<field>(obj, v) in a contract file. Loads outside the writer's lock return an
+// arbitrary value satisfying it; every store must establish it.
+func (vc *VC) atomInv(st *State, p place, v string, s Sort, isWrite bool, pos token.Pos) {
+	if p.kind != pHeap || vc.specMode {
+		return
+	}
+	key := "atominv_" + strings.NewReplacer(".", "_").Replace(strings.TrimPrefix(p.owner+p.path, "."))
+	var fi *FuncInfo
+	for _, f := range vc.prog.pure {
+		if f.Obj.Name() == key {
+			fi = f
+		}
+	}
+	if fi == nil {
+		return
+	}
+	saveMode, saveOld := vc.specMode, vc.oldState
+	vc.specMode = true
+	if vc.oldState == nil {
+		vc.oldState = st
+	}
+	t := vc.evalPure(st, fi, []Val{sc(p.ref, SRef), sc(v, s)}, nil).(*Scalar).T
+	vc.specMode, vc.oldState = saveMode, saveOld
+	if isWrite {
+		vc.oblige(st, "atominv", lastPart(key), pos, t, "store establishes the invariant of atomic "+p.owner+p.path)
+	} else {
+		save := vc.curLabel
+		vc.curLabel = "atominv." + p.owner + p.path
+		vc.assume(st, t)
+		vc.curLabel = save
+	}
 }
